@@ -465,6 +465,138 @@ func reusedIDBody(shape string) func() {
 	}
 }
 
+// stopStartBody: the application toggles StopSending / StartSending while another of its goroutines hands further
+// requests to the client: requests queued before sending starts are flushed by StartSending, a concurrent goroutine
+// stops sending again and queues more (or queues while the flush is in progress), and a final StartSending flushes
+// what is left. Every operation handed over must reach the (well-behaved) server exactly once and be completed
+// exactly once. The client has no session parameters or election id of its own here (StartSending would re-send
+// them on every call).
+func stopStartBody() func() {
+	return func() {
+		srv := &script{nOps: 1 << 30}
+		stub := wire.New(srv)
+		c, err := client.New()
+		if err != nil {
+			panic(err)
+		}
+		if err := c.UseStub(stub); err != nil {
+			panic(err)
+		}
+		if err := c.Connect(context.Background()); err != nil {
+			panic(err)
+		}
+		shape := rt.Choose(4, 0, "stop-start-shape")
+		pre, late, stop := 2, 1, true
+		switch shape {
+		case 1:
+			late = 2
+		case 2:
+			stop = false
+		case 3:
+			pre, late = 3, 2
+		}
+		all := ops(pre + late)
+		for _, o := range all {
+			o.ElectionId = nil
+		}
+		rt.Emit("shape", [3]any{pre, late, stop})
+		for _, o := range all[:pre] {
+			c.Q(&spb.ModifyRequest{Operation: []*spb.AFTOperation{o}})
+		}
+		done := make(chan struct{})
+		rt.Go("application-2", func() {
+			if stop {
+				c.StopSending()
+			}
+			for _, o := range all[pre:] {
+				c.Q(&spb.ModifyRequest{Operation: []*spb.AFTOperation{o}})
+			}
+			rt.Close(done)
+		})
+		c.StartSending()
+		rt.Recv(done)
+		c.StartSending()
+		rt.Emit("handed", len(all))
+		err = c.AwaitConverged(context.Background())
+		rt.Emit("await-returned", fmt.Sprint(err))
+		f := snapshot(c, all, false)
+		f.awaitNil = err == nil
+		f.awaitErr = fmt.Sprint(err)
+		rt.Emit("final", f)
+		c.Close()
+		rt.Emit("closed", nil)
+		rt.Quiesce()
+	}
+}
+
+func checkStopStart() func(x *rt.Exec) []mc.Fail {
+	return func(x *rt.Exec) []mc.Fail {
+		var out []mc.Fail
+		bad := func(sig, format string, a ...any) {
+			out = append(out, mc.Fail{Sig: sig, What: fmt.Sprintf(format, a...)})
+		}
+		if x.Crash != "" {
+			bad("crash/"+firstLine(x.Crash), "%s", x.Crash)
+			return out
+		}
+		n := 0
+		shape := ""
+		onWire := map[string]int{}
+		var wire []string
+		var f *final
+		for _, e := range x.Events {
+			switch e.Label {
+			case "shape":
+				v := e.Val.([3]any)
+				n = v[0].(int) + v[1].(int)
+				shape = fmt.Sprintf("%d requests queued before StartSending, %d handed over by a second goroutine (StopSending first: %v)", v[0], v[1], v[2])
+			case "srv-recv":
+				onWire[e.Val.(string)]++
+				wire = append(wire, e.Val.(string))
+			case "final":
+				ff := e.Val.(final)
+				f = &ff
+			}
+		}
+		lostOrDup := false
+		for id := 1; id <= n; id++ {
+			if k := onWire[fmt.Sprintf("ops[%d]", id)]; k != 1 {
+				lostOrDup = true
+				bad(fmt.Sprintf("C13/request-on-the-wire-%d-times", k), "%s: the request with operation %d was written to the stream %d times (wire: %v)", shape, id, k, wire)
+			}
+		}
+		if x.Deadlock {
+			bad("C13/client-blocked", "%s: blocked: %v", shape, x.Blocked)
+			return out
+		}
+		if x.Livelock {
+			if !lostOrDup {
+				bad("C13/await-never-returns", "%s: every operation reached the server and was answered but AwaitConverged never returns; blocked: %v", shape, x.Blocked)
+			}
+			return out
+		}
+		if f == nil {
+			bad("C13/harness-incomplete", "execution ended without a final snapshot")
+			return out
+		}
+		if !f.awaitNil {
+			bad("C13/await-failed-against-well-behaved-server", "%s: AwaitConverged returned %s", shape, f.awaitErr)
+		}
+		if len(f.pending) > 0 {
+			bad("C13/converged-with-pending", "%s: pending after AwaitConverged: %v", shape, f.pending)
+		}
+		for id := uint64(1); id <= uint64(n); id++ {
+			if f.terminals[id] != 1 {
+				bad(fmt.Sprintf("C13/terminal-results-%d-not-1", f.terminals[id]), "%s: operation %d has %d terminal results in Results(): %v", shape, id, f.terminals[id], f.results)
+			}
+		}
+		for _, d := range f.detailsBad {
+			bad("C13/result-details-do-not-match-operation", "%s: %s", shape, d)
+		}
+		return out
+	}
+}
+
 func checkReusedID(shape string) func(x *rt.Exec) []mc.Fail {
 	return func(x *rt.Exec) []mc.Fail {
 		switch {
@@ -643,9 +775,9 @@ func outcome(x *rt.Exec) string {
 // accountingParts lists the C13 shards.
 func accountingParts(tier string) []string {
 	if tier == "thorough" {
-		return []string{"2-ops/rib-ack/rich", "2-ops/fib-ack/rich", "3-ops/rib-ack", "3-ops/fib-ack", "1-op/fib-ack/rich", "reused-id"}
+		return []string{"2-ops/rib-ack/rich", "2-ops/fib-ack/rich", "3-ops/rib-ack", "3-ops/fib-ack", "1-op/fib-ack/rich", "reused-id", "stop-start"}
 	}
-	return []string{"2-ops/rib-ack", "2-ops/fib-ack", "1-op/fib-ack/rich", "reused-id"}
+	return []string{"2-ops/rib-ack", "2-ops/fib-ack", "1-op/fib-ack/rich", "reused-id", "stop-start"}
 }
 
 // RunC13 decides C13 (one shard process per configuration).
@@ -668,6 +800,15 @@ func ChildC13(rep *report.Report, tier, part string) {
 			res := mc.DFS(mc.SchedConfig{Name: part + "/" + shape, Body: reusedIDBody(shape), Check: checkReusedID(shape), Outcome: outcome, Bound: bound, SwitchCost: 1, Deadline: dl})
 			merge(rep, "accounting/"+part+"/"+shape, res, bound)
 		}
+		return
+	}
+	if part == "stop-start" {
+		bound := 2
+		if tier == "thorough" {
+			bound = 3
+		}
+		res := mc.DFS(mc.SchedConfig{Name: part, Body: stopStartBody(), Check: checkStopStart(), Outcome: outcome, Bound: bound, SwitchCost: 1, Deadline: dl})
+		merge(rep, "accounting/"+part, res, bound)
 		return
 	}
 	n := 2
